@@ -572,3 +572,15 @@ package render
 //@   ensures [whose-side-is-at-least-the-longest-side-of-the-enlarged-box] real(pow2(levels - 1))*res >= bb.Size().MaxComponent()
 //@   ensures [then-the-sink-is-closed] nev(".Close") == 1 && evbefore("call:dcache2.processSquare", ".Close")
 //@ end
+
+//@ func loadSTLAscii
+//@   property C13
+//@   id groups-vertices-in-threes
+//@   opt inst-rounds 1
+//@   invariant 0 len(v) >= 0
+//@   invariant 1 i >= 0 && i % 3 == 0 && i <= len(v) + 2 && len(v) % 3 == 0 && 3*len(mesh) == i
+//@   invariant 1 forall k int :: 0 <= k && k < len(mesh) ==> !isnil(mesh[k]) && mesh[k][0] == v[3*k] && mesh[k][1] == v[3*k + 1] && mesh[k][2] == v[3*k + 2]
+//@   ensures [a-vertex-count-that-is-not-a-multiple-of-three-is-an-error] len(v) % 3 != 0 ==> isnil(r0) && !isnil(r1)
+//@   ensures [one-triangle-per-three-vertex-lines-unless-a-number-does-not-parse] len(v) % 3 == 0 ==> 3*len(r0) == len(v) || (isnil(r0) && !isnil(r1))
+//@   ensures [holding-them-in-file-order] forall k int :: len(v) % 3 == 0 && 0 <= k && k < len(r0) ==> !isnil(r0[k]) && r0[k][0] == v[3*k] && r0[k][1] == v[3*k + 1] && r0[k][2] == v[3*k + 2]
+//@ end
